@@ -14,6 +14,17 @@ def _not_state_dump(prefixes):
     return f
 
 
+LOCK_RULE = ("cases = executions of REAL kvsLock goroutines under a controlled scheduler: 2-4 workers over configurations {two Lockers of one provider, two providers, two goroutines sharing one Locker, sharing + second Locker, three Lockers/two providers, 2x2}; the scheduler picks one action at a time from {start Lock / LockWithCtx (also pre-cancelled) / TryLock / Unlock on an idle worker, cancel a context, release a parked storage call as ok / request-lost / reply-lost (<= 2 faults per case; none for C04), return a parked WaitForVersionChange, fire all armed lease timers, let the record lapse when the lease assumption allows it, shut a provider down}; after every action the system settles (every goroutine parked at a storage gate, on the Locker's token — recognised by goroutine-stack inspection — or returned) and the observable state (holders, record version, armed timers, renewals in flight, token and counter of every Locker) is emitted; the Lean driver replays every trace through Lock.Exec.handle; non-trivial = >= 2 goroutines were inside an acquire at once, or a fault/cancel hit an attempt; distinct by hash of the event list")
+LOCK_ASSUME = ["lease assumption (guard of `expire`): a record lapses only when the goroutine owning its chain neither holds nor is inside Unlock before its Delete took effect — weaker guard is refuted by C01.mutex_needs_timely_unlock (KF-1)",
+               "well-bracketed use: a caller unlocks only a lock it holds", "storage call + delivery of its result, timeout.Call + future.Store after Create, and sync/atomic operations are atomic steps",
+               "timers fire when the scheduler says so (lease 1h + forced firing); a timer never fires before the supportTimeout that armed it finished its CompareAndSwap (C05.lease_chain_alive_partial: ReachNE)"]
+LOCK_TRUSTED = ["modelled, not verified: Go select / channel / sync/atomic semantics, the timeout dispatcher (its own properties are C12/C13), context cancellation",
+                "the harness Storage (GateStore) applies each call atomically to a one-record store when the scheduler releases it; goroutine-stack inspection (runtime.Stack) decides that a goroutine is parked on the token",
+                "C01Exec.handle_sound / replay_reach: every trace the driver accepts is a Lock.Step execution, so the theorems about Reach apply to every replayed state"]
+LOCK_EXPL = {"C01": "C01.mutex (any N, any sharing, any interleaving, unbounded faults), holder_owns_record, locker_serialised, counter_exact; mutex_needs_timely_unlock is the kernel-checked KF-1 history",
+             "C04": "C04.no_residue, token_exact, record_has_live_owner, no_deadlock, handoff, after_shutdown_no_acquire, fail_path_restores on fault-free runs",
+             "C05": "C05.lease_chain_alive_partial (renewal chain never dies while held, under the stated timing assumption), renewal_dies_after_unlock_partial, dead_holder_released, lease_margin; reply_lost_breaks_chain = KF-3; the full-strength statements lease_chain_alive_full / renewal_dies_after_unlock_full are REFUTED in Lean (early-fire race; unbounded leftovers in an untimed model)"}
+
 PROPS = {
     "C14": dict(
         lean=["GolibsVerif.Props.C14"],
@@ -102,19 +113,40 @@ PROPS = {
         explanation="C12.idx_inv (index integrity + heap order for every sequence of critical sections), cancel_removes_exactly, never_early, at_most_once, cancel_before_due_never_starts, root_is_min",
     ),
     "C01": dict(
-        lean=["GolibsVerif.Props.C01"],
+        lean=["GolibsVerif.Props.C01", "GolibsVerif.Props.C01Exec"],
         seq=[],
-        rule="(T correspondence pending)",
+        go_cmds=("seq", "conc"),
+        conc=[dict(comp="lock", driver="locktrace", args=["-focus", "C01"],
+                   decisive=lambda d: d["op"].startswith("mon C01"),
+                   ignore=lambda d: d["op"].startswith("mon ") and not d["op"].startswith("mon C01"))],
+        rule=LOCK_RULE,
+        assumptions=LOCK_ASSUME,
+        trusted=LOCK_TRUSTED,
+        explanation=LOCK_EXPL["C01"],
     ),
     "C04": dict(
-        lean=["GolibsVerif.Props.C04"],
+        lean=["GolibsVerif.Props.C04", "GolibsVerif.Props.C01Exec"],
         seq=[],
-        rule="(T correspondence pending)",
+        go_cmds=("seq", "conc"),
+        conc=[dict(comp="lock", driver="locktrace", args=["-focus", "C04"],
+                   decisive=lambda d: d["op"].startswith("mon C04"),
+                   ignore=lambda d: d["op"].startswith("mon ") and not d["op"].startswith("mon C04"))],
+        rule=LOCK_RULE,
+        assumptions=LOCK_ASSUME,
+        trusted=LOCK_TRUSTED,
+        explanation=LOCK_EXPL["C04"],
     ),
     "C05": dict(
-        lean=["GolibsVerif.Props.C05"],
+        lean=["GolibsVerif.Props.C05", "GolibsVerif.Props.C01Exec"],
         seq=[],
-        rule="(T correspondence pending)",
+        go_cmds=("seq", "conc"),
+        conc=[dict(comp="lock", driver="locktrace", args=["-focus", "C05"],
+                   decisive=lambda d: d["op"].startswith("mon C05"),
+                   ignore=lambda d: d["op"].startswith("mon ") and not d["op"].startswith("mon C05"))],
+        rule=LOCK_RULE,
+        assumptions=LOCK_ASSUME,
+        trusted=LOCK_TRUSTED,
+        explanation=LOCK_EXPL["C05"],
     ),
     "C03": dict(
         lean=["GolibsVerif.Props.C03"],
@@ -159,15 +191,16 @@ MANIFEST_TEXT = {
     "C19": _t("Lean proof, against the class list and both tables REGENERATED from errors.go/grpc.go, that Is(GRPCWrap(e), c) holds exactly for the chain's class in any map order, GRPCWrap is idempotent, embedded objects stay extractable, every code maps to one class; tied by regeneration + differential run with Go-side monitors", "Lean 4 proofs over regenerated tables (decide + structural induction) + model/code correspondence"),
 }
 
+MANIFEST_TEXT.update({
+    "C01": _t("Lean proof of mutual exclusion for the N-process transition system of kvlock.go (any number of goroutines/Lockers/providers, every interleaving at storage-call granularity, cancellation anywhere, unbounded request-lost/reply-lost faults) under the explicit lease assumption; tied to the code by trace refinement: real kvsLock goroutines run under a controlled scheduler and every recorded trace is replayed through the executable model, which is proved sound w.r.t. the transition relation (C01Exec)", "Lean 4 inductive-invariant proof over an N-process transition system + trace refinement of real executions"),
+    "C04": _t("Lean proofs on fault-free runs: no residue at quiescence, token/counter exact, no orphan record, deadlock freedom (some caller inside a call can always move when nobody holds), hand-off enabledness, no acquisition after shutdown, failure paths restore the Locker; tie as C01 plus Go-side residue / stuck monitors. Eventual service of every caller rests on a fairness assumption (not mechanised)", "Lean 4 invariant + enabledness proofs + trace refinement of real executions"),
+    "C05": _t("Lean proofs: the renewal chain stays alive while the lock is held (under the stated timing assumption; the unrestricted statement is refuted in Lean), leftovers after Unlock are stale and die at their next CAS, a lapsed record lets a waiter acquire, timing margin arithmetic; tie as C01 with scheduler-driven timer firing and a Go-side chain-alive monitor. Real-time behaviour (timers, latency) is runtime and not proved", "Lean 4 invariant proofs (partial: timing assumption explicit) + trace refinement of real executions"),
+})
+
 NOT_CLAIMED = {
-    "C01": "claimed once the trace-refinement tie (controlled scheduler over the real kvsLock) is in place; the Lean model and theorems (Props/C01.lean) are already proved",
     "C02": "in progress: contract-level theorems proved (Props/C02Spec.lean); linearizability tie for the concurrent backends not built yet",
-    "C04": "claimed once the trace-refinement tie is in place; Lean theorems (Props/C04.lean) proved",
-    "C05": "claimed once the trace-refinement tie is in place; Lean theorems (Props/C05.lean) proved",
     "C07": "in progress (waiter small-step model + tie not built yet)",
     "C09": "in progress (concurrent LRU model + tie not built yet)",
     "C13": "in progress (worker-pool model + tie not built yet)",
     "C20": "in progress (zip path model + tie not built yet)",
 }
-for _p in ("C01", "C04", "C05"):
-    PROPS[_p]["claimed"] = False
